@@ -110,10 +110,27 @@ func scale60(r [][2]int) [][2]int {
 	return out
 }
 
+// c16Unclosed: hand the first outer ring over without its closing vertex when its first vertex lies strictly inside
+// the box (such a ring is closed implicitly, so the result must be that of the closed ring).
+// c16AsCollection: the Geometry entry point receives the polygons as members of a Collection.
+var c16Unclosed, c16AsCollection bool
+
 func c16Smart(c *ctx, fn string, box [4]int, in [][][][2]int, o int) {
 	s := float64(c16S)
 	b := toBound(box, s)
 	g := mpOf(in, s)
+	if r0 := in[0][0]; c16Unclosed && len(r0) >= 4 && r0[0] == r0[len(r0)-1] &&
+		r0[0][0] > box[0] && r0[0][0] < box[2] && r0[0][1] > box[1] && r0[0][1] < box[3] {
+		crosses := false // a ring wholly inside comes back unchanged, closed or not: only rings that leave the box count here
+		for _, q := range r0 {
+			if q[0] < box[0] || q[0] > box[2] || q[1] < box[1] || q[1] > box[3] {
+				crosses = true
+			}
+		}
+		if crosses {
+			g[0][0] = g[0][0][:len(g[0][0])-1]
+		}
+	}
 	oo := orb.CCW
 	if o < 0 {
 		oo = orb.CW
@@ -134,12 +151,27 @@ func c16Smart(c *ctx, fn string, box [4]int, in [][][][2]int, o int) {
 			if len(g) == 1 {
 				arg = g[0]
 			}
-			switch v := smartclip.Geometry(b, arg, oo).(type) {
-			case orb.Polygon:
-				out = orb.MultiPolygon{v}
-			case orb.MultiPolygon:
-				out = v
+			if c16AsCollection {
+				col := orb.Collection{}
+				for _, p := range g {
+					col = append(col, p)
+				}
+				arg = col
 			}
+			var flat func(v orb.Geometry)
+			flat = func(v orb.Geometry) {
+				switch v := v.(type) {
+				case orb.Polygon:
+					out = append(out, v)
+				case orb.MultiPolygon:
+					out = append(out, v...)
+				case orb.Collection:
+					for _, m := range v {
+						flat(m)
+					}
+				}
+			}
+			flat(smartclip.Geometry(b, arg, oo))
 		}
 	})
 	if site != "" {
@@ -210,6 +242,7 @@ func init() {
 				continue
 			}
 			ring = orient(ring, o)
+			c16Unclosed, c16AsCollection = c.rng.Intn(3) == 0, c.rng.Intn(3) == 0
 			switch c.rng.Intn(11) {
 			case 0, 1:
 				c16Smart(c, []string{"Ring", "Geometry"}[c.rng.Intn(2)], box, [][][][2]int{{closed(scale60(ring))}}, o)
